@@ -38,11 +38,11 @@ gensalt_sha_rn (char tag, size_t maxsalt, unsigned long defcount,
     count = maxcount;
 
   /* Compute how much space we need.  */
-  size_t output_len = 8; /* $x$ssss\0 */
+  size_t output_len = 9; /* $x$ssss\0, plus one spare byte (see below) */
   if (count != defcount)
     {
       output_len += 9; /* rounds=1$ */
-      for (unsigned long ceiling = 10; ceiling < count; ceiling *= 10)
+      for (unsigned long ceiling = 10; ceiling <= count; ceiling *= 10)
         output_len += 1;
     }
   if (output_size < output_len)
